@@ -60,6 +60,14 @@ def _search_exit(E, outcome, value, env, prefix):
                                  replace_all(z3.SubString(inner, 0, dash), z3.StringVal('.'), z3.StringVal(' ')))
                 ob7('entity_with_formats_means_name_and_formats', az == want,
                     '&dtml.f1.f2-NAME; has the arguments "NAME f1 f2"')
+    # C07: <dtml-...> and </dtml-...> end at a '>' outside double quotes (so quoted '>' may appear in arguments, in open
+    # and in closing tags alike)
+    cnt = z3.Function('str_count', z3.StringSort(), z3.StringSort(), z3.IntSort())
+    for opener_, k in (('<dtml-', 6), ('</dtml-', 7)):
+        if E.valid(z3.SubString(text, sz, k) == z3.StringVal(opener_)):
+            inner_ = z3.SubString(text, sz + k, z3.Length(tz) - k - 1)
+            ob7('dtml_tag_ends_outside_quotes', cnt(inner_, z3.StringVal('"')) % 2 == 0,
+                'the text between %s and the closing > contains an even number of double quotes' % opener_)
     closer = z3.Or(*[z3.SuffixOf(z3.StringVal(p), tz) for p in ('-->', '>', ';')])
     ob1('match_ends_with_a_tag_closer', closer, 'and it ends with -->, > or ;')
 
@@ -67,7 +75,9 @@ def _search_exit(E, outcome, value, env, prefix):
 _T = {'mo': 'opaque', 's': 'int', 'n': 'int', 'e': 'int', 'en': 'int', 'end': 'str', 'l_': 'int', 'args': 'str', 'nn': 'int', 'd': 'opaque'}
 LOOPS = {
     1: dict(header='1', inv=dict(pos='0 <= start and start <= strlen(text)', entry='start >= s0'), ghost={'s0': 'start'}, ghost_types={'s0': 'same'},
-            decreases='strlen(text) - start', types=_T),
+            decreases='strlen(text) - start', types=_T,
+            # the matcher object is reused for every search of a parse: whatever an earlier search left in it is unknown here
+            havoc_fields=[('self', f, None) for f in (0, 1, 2, 3, 'end', 'name', 'args', '_start')]),
     2: dict(header='1', inv=dict(pos='n <= e and e <= strlen(text) and (n == s + 6 or n == s + 7) and s >= start and s >= 0 and start >= s0'), decreases='strlen(text) - e', types=_T),
     3: dict(header='1', inv=dict(pos='n <= e and e <= strlen(text) and (n == s + 6 or n == s + 7) and s >= start and s >= 0 and start >= s0'), decreases='strlen(text) - e', types=_T),
 }
@@ -76,3 +86,606 @@ contract(RC + '.search', variant='M',
                      start_search=Default(), ent_name=Default()),
          requires=['0 <= start', 'start <= strlen(text)'],
          exit_hook=_search_exit, invariants=LOOPS)
+
+
+# ------------------------------------------------------------------ the compiler proper: String.parse / parse_block / parse_close / skip_eol
+from pyvc.builtins_ import ABSTRACT_TAG_MATCHER  # noqa
+PT = ST + '._parseTag'
+PB = ST + '.parse_block'
+PC = ST + '.parse_close'
+PA = ST + '.parse'
+SK = ST + '.skip_eol'
+PE = ST + '.parse_error'
+
+
+def _ctor_proto(E, fn, args):
+    """a tag constructor: returns some tag object or raises ParseError (each concrete constructor: see C06 constructor obligations)"""
+    if E.decide(2, 'constructor rejects') == 1:
+        from pyvc.engine import PyRaise
+        raise PyRaise(VExc('ParseError', [VC('message'), VC('tag')]))
+    return E.fresh_opaque('tagobject')
+
+
+def _parsetag_hook(E, loc):
+    """_parseTag as seen by the compiler: the tag text is group(0) of the match; the command is a simple command, a block
+    command, or None (end / continuation tag, then coname may name the continuation)"""
+    mo = loc['match_ob']
+    tag = E.heap[mo.addr].fields['groups'][0]
+    outer = loc.get('command')
+    toplevel = isinstance(outer, VC) and outer.v is None
+    # without an enclosing block command a tag is never an end or continuation tag (proved for both parseTag
+    # implementations: clause C06.parseTag.no_command_means_open_tag)
+    kind = E.decide(2 if toplevel else 4, '_parseTag kind')
+    args = VS(z3.String(E.fresh('tagargs')))
+    if kind == 0:
+        cmd = VO(E.fresh('simple_command'), _ctor_proto)
+        E.ghost[('hasattr', cmd.name, 'blockContinuations')] = False
+        return VT([tag, args, cmd, NONE])
+    if kind == 1:
+        cmd = VO(E.fresh('block_command'), _ctor_proto)
+        E.ghost[('hasattr', cmd.name, 'blockContinuations')] = True
+        E.assume(E.truth_term(cmd) if not isinstance(E.truth_term(cmd), bool) else z3.BoolVal(True))
+        return VT([tag, args, cmd, NONE])
+    if kind == 2:
+        return VT([tag, args, NONE, NONE])                      # end tag
+    co = VS(z3.String(E.fresh('coname')))
+    E.assume(z3.Length(co.t) > 0)
+    return VT([tag, args, NONE, co])                            # continuation tag
+
+
+contract(PT, params=dict(self=Opaque(), match_ob=Opaque(), command=Opaque(), sargs=Opaque(), tt=Default()),
+         raises=['ParseError'], returns=Opaque(), call_hook=_parsetag_hook,
+         exc_ensures=dict(two_args="True"))
+contract(PE, params=dict(self=Opaque(), mess=Opaque(), tag=Opaque(), text=Opaque(), start=Opaque()), raises=['ParseError'], returns=NoneV(), noreturn=True)
+contract(SK, params=dict(self=Opaque(), text=Str(), start=Int(), eol=Default()),
+         ensures=dict(range="result >= start and result <= strlen(text)"), returns=Int())
+
+
+def _pb_effect(E, loc, outcome):
+    if outcome == 'normal':
+        r = loc['result']
+        item = E.fresh_opaque('block_item')
+        E.heap[r.addr].items.append(item)
+        E.trace.append(('list_append', r.addr, repr(item), item))
+
+
+contract(PB, params=dict(self=Opaque(), text=Str(), start=Int(), result=ListS(), tagre=Opaque(), stag=Str(), sloc=Int(), sargs=Opaque(), scommand=Opaque()),
+         requires=['start == sloc + strlen(stag)', 'sloc >= 0', 'start <= strlen(text)'],
+         ensures=dict(range="result >= start and result <= strlen(text)"), raises=['ParseError'], returns=Int(), effects=_pb_effect)
+contract(PC, params=dict(self=Opaque(), text=Str(), start=Int(), tagre=Opaque(), stag=Str(), sloc=Int(), scommand=Opaque(), sa=Opaque()),
+         ensures=dict(range="result >= start and result <= strlen(text)"), raises=['ParseError'], returns=Int())
+
+
+def _parse_state(E, env):
+    env.locals['tagre'] = VRe(ABSTRACT_TAG_MATCHER, 0)
+    env.locals['__g_r0'] = VI(z3.Int('len_L0_result'))
+
+
+def _lits(E, apps):
+    return [a for a in apps if E.is_strlike(a[3])]
+
+
+def _parse_iter(E, env, trace, fq, ordn):
+    ob = lambda n, c, d: E.oblige('%s::C01.parse.%s' % (fq, n), c, kind='trace', detail=d)  # noqa
+    g = E.ghost_env(env)
+    hs, hl, ht = E.as_z3_int(g['h_start']), E.as_z3_int(g['h_l']), E.as_z3_int(g['h_tl'])
+    text = E.as_z3_str(env.locals['text'])
+    res = env.locals['result']
+    apps = [t for t in trace if t[0] == 'list_append' and t[1] == res.addr]
+    lits = _lits(E, apps)
+    others = [a for a in apps if not E.is_strlike(a[3])]
+    ob('at_most_one_literal_per_tag', bool(len(lits) <= 1 and (not lits or apps[0] is lits[0])), 'before each tag at most one piece of literal text is emitted, and it comes first')
+    if lits:
+        ob('literal_is_exactly_the_text_before_the_tag', E.as_z3_str(lits[0][3]) == z3.SubString(text, hs, hl - hs),
+           'the literal emitted is text[previous position : start of the tag], unaltered')
+    else:
+        ob('no_literal_only_when_nothing_precedes_the_tag', hl == hs, 'no literal is emitted only when the tag starts right at the previous position')
+    ob('one_compiled_item_per_tag', bool(len(others) == 1), 'each tag contributes exactly one compiled item (after its literal)')
+    new = E.as_z3_int(env.locals['start'])
+    blocks = [t for t in trace if t[0] == 'contract-call' and t[1] == PB]
+    if blocks:
+        ob('block_parsed_from_just_after_its_open_tag', bool(len(blocks) == 1) and E.valid(E.as_z3_int(blocks[0][2]['start']) == hl + ht)
+           and E.valid(E.as_z3_int(blocks[0][2]['sloc']) == hl),
+           'a block tag hands the text right after the open tag to parse_block')
+        ob('resumes_where_the_block_ended', new >= hl + ht, 'parsing resumes where the block parser stopped')
+    else:
+        ob('resumes_right_after_the_tag', new == hl + ht, 'after a simple tag parsing resumes exactly behind the tag text: nothing is skipped')
+
+
+def _parse_exit(E, outcome, value, env, prefix):
+    ob1 = _ob(E, prefix, 'C01')
+    ob6 = _ob(E, prefix, 'C06')
+    if outcome != 'normal':
+        return
+    marks = [i for i, t in enumerate(E.trace) if t[0] == 'loop_exit']
+    if not marks:
+        return
+    tail = E.trace[marks[-1]:]
+    fin = env.final
+    res = fin['result']
+    apps = [t for t in tail if t[0] == 'list_append' and t[1] == res.addr]
+    text0 = z3.String('text')
+    st = E.as_z3_int(fin['start'])
+    rest = z3.SubString(text0, st, z3.Length(text0) - st)
+    if apps:
+        ob1('parse.trailing_text_emitted_verbatim', bool(len(apps) == 1) and E.as_z3_str(apps[0][3]) == rest,
+            'the text after the last tag is emitted verbatim, once')
+    else:
+        ob1('parse.no_trailing_piece_only_at_end_of_text', st >= z3.Length(text0), 'nothing is emitted after the last tag only when the text ends there')
+    ob1('parse.returns_the_result_list', bool(value is res), 'the list of pieces is returned')
+
+
+contract(PA, variant='C01',
+         params=dict(self=Obj(ST, lazy=True), text=Str(), start=Int(), result=ListS(), tagre=NoneV()),
+         requires=['0 <= start', 'start <= strlen(text)'],
+         pre_hook=_parse_state, exit_hook=_parse_exit, raises=['ParseError'],
+         uses=[PT, PB, PE],
+         invariants={1: dict(header='mo', text_var='text',
+                             inv=dict(pos='0 <= start and start <= strlen(text)',
+                                      match_ahead='is_none(mo) or (mstart(mo) >= start and mend(mo) <= strlen(text))'),
+                             snapshot={'h_start': 'start', 'h_l': 'mstart(mo)', 'h_tl': 'mend(mo) - mstart(mo)'},
+                             decreases='strlen(text) - start',
+                             havoc_heap=['result'],
+                             types={'mo': 'tagmatch?', 'l_': 'int', 'tag': 'str', 'args': 'opaque', 'command': 'opaque', 'coname': 'opaque',
+                                    's': 'str', 'r': 'opaque', 'start': 'int', 'm': 'opaque'},
+                             on_iteration=_parse_iter)})
+
+
+# ------------------------------------------------------------------ skip_eol
+def _skip_exit(E, outcome, value, env, prefix):
+    ob = _ob(E, prefix, 'C01')
+    from pyvc.builtins_ import regex_to_z3
+    text, start = z3.String('text'), z3.Int('start')
+    if outcome != 'normal':
+        ob('skip_eol.total', False, 'skip_eol raised %s' % value.cls)
+        return
+    r = E.as_z3_int(value)
+    spec = regex_to_z3('[ \t]*\n')
+    ob('skip_eol.skips_only_blanks_up_to_one_newline', z3.Or(r == start, z3.And(r > start, r <= z3.Length(text),
+                                                                           z3.InRe(z3.SubString(text, start, r - start), spec))),
+       'the only characters skipped are one run of blanks (space, tab) ending in a newline, directly at the given position')
+    eol = env.locals['eol']
+    rz = regex_to_z3(eol.pattern, eol.flags) if isinstance(eol, VRe) else None
+    w = z3.String('w')
+    if rz is None:
+        ob('skip_eol.pattern_is_blanks_newline', False, 'the line-end pattern is not a plain regular expression')
+    else:
+        from pyvc import smt
+        v, m, be = smt.check([z3.InRe(w, rz), z3.Not(z3.InRe(w, spec))], want_model=True)
+        ob('skip_eol.pattern_is_blanks_newline', bool(v == 'unsat'),
+           'the language of the line-end pattern %r is contained in [ \\t]*\\n (regular-expression inclusion%s)'
+           % (eol.pattern, '' if v == 'unsat' else '; counterexample %s' % (m[w] if v == 'sat' and hasattr(m, '__getitem__') else v)))
+
+
+contract(SK, variant='C01', params=dict(self=Opaque(), text=Str(), start=Int(), eol=Default()),
+         requires=['0 <= start', 'start <= strlen(text)'], exit_hook=_skip_exit)
+
+
+# ------------------------------------------------------------------ parse_error: names the tag and the 1-based line of the tag start
+def _pe_exit(E, outcome, value, env, prefix):
+    ob = _ob(E, prefix, 'C06')
+    ok = outcome == 'raise' and value.cls == 'ParseError' and not value.sym and len(value.args) == 1
+    ob('parse_error.raises_parse_error', bool(ok), 'parse_error always raises ParseError with one formatted message')
+    if not ok:
+        return
+    msg = E.as_z3_str(value.args[0])
+    text, start = z3.String('text'), z3.Int('start')
+    cnt = z3.Function('str_count', z3.StringSort(), z3.StringSort(), z3.IntSort())
+    line = cnt(z3.SubString(text, 0, start), z3.StringVal('\n')) + 1
+    want = z3.Concat(z3.String('mess'), z3.StringVal(', for tag '), z3.String('tag'), z3.StringVal(', on line '), z3.IntToStr(line),
+                     z3.StringVal(' of '), z3.String('tmplname'))
+    ob('parse_error.message_names_tag_and_line', msg == want,
+       'the message is "<reason>, for tag <tag text>, on line <1 + number of newlines before the tag start> of <template name>"')
+
+
+contract(PE, variant='C06', params=dict(self=Obj(ST, lazy=False, fields={'__name__': Str()}), mess=Str(), tag=Str(), text=Str(), start=Int()),
+         requires=['0 <= start', 'start <= strlen(text)'], exit_hook=_pe_exit,
+         pre_hook=lambda E, env: E.heap[env.locals['self'].addr].fields.__setitem__('__name__', VS(z3.String('tmplname'))))
+
+
+# ------------------------------------------------------------------ parse_block / parse_close
+contract(PA, params=dict(self=Opaque(), text=Str(), start=Int(), result=Opaque(), tagre=Opaque()), raises=['ParseError'], returns=ListS())
+contract(ST + '.SubTemplate', params=dict(self=Opaque(), name=Opaque()), returns=Obj(ST, lazy=True, prov='fresh'))
+
+
+def _pb_state(E, env):
+    env.locals['tagre'] = VRe(ABSTRACT_TAG_MATCHER, 0)
+    cmd = VO('scommand', _ctor_proto)
+    E.assume(E.truth_term(cmd))
+    env.locals['scommand'] = cmd
+
+
+def _sk_calls(trace):
+    out = []
+    for t in trace:
+        if t[0] == 'contract-call' and t[1] == SK:
+            out.append(dict(start=t[2]['start'], text=t[2]['text'], ret=None))
+        elif t[0] == 'contract-ret' and t[1] == SK and out:
+            out[-1]['ret'] = t[2]
+    return out
+
+
+def _pb_iter(E, env, trace, fq, ordn):
+    """a completed iteration: a nested tag was skipped, or a continuation tag closed one section"""
+    ob = lambda n, c, d: E.oblige('%s::C01.block.%s' % (fq, n), c, kind='trace', detail=d)  # noqa
+    g = E.ghost_env(env)
+    hss = E.as_z3_int(g['h_sstart'])
+    hl, ht = E.as_z3_int(env.locals['l_']), z3.Length(E.as_z3_str(env.locals['tag']))
+    text = E.as_z3_str(env.locals['text'])
+    parses = [t for t in trace if t[0] == 'contract-call' and t[1] == PA]
+    closes = [t for t in trace if t[0] == 'contract-call' and t[1] == PC]
+    sks = _sk_calls(trace)
+    new = E.as_z3_int(env.locals['start'])
+    if parses:
+        p = parses[0][2]
+        ob('section_is_the_text_between_its_tags', bool(len(parses) == 1) and z3.And(E.as_z3_str(p['text']) == z3.SubString(text, 0, hl),
+                                                                                     E.as_z3_int(p['start']) == hss),
+           'a section is compiled from text[section start : start of the tag that ends it] (passed as text[:l], start)')
+        ob('line_end_skipped_only_after_the_continuation_tag', bool(len(sks) == 1) and E.valid(E.as_z3_int(sks[0]['start']) == hl + ht)
+           and E.valid(E.as_z3_int(env.locals['sstart']) == E.as_z3_int(sks[0]['ret'])) and E.valid(new == E.as_z3_int(sks[0]['ret'])),
+           'the next section starts at skip_eol(position right after the continuation tag)')
+    else:
+        ob('no_line_end_skipped_after_a_nested_tag', bool(not sks), 'skip_eol is applied only after the open, continuation and close tag of this block')
+        if closes:
+            ob('nested_block_skipped_as_a_whole', bool(len(closes) == 1) and E.valid(E.as_z3_int(closes[0][2]['start']) == hl + ht),
+               'a nested block is skipped from right after its open tag to its matching end tag')
+        else:
+            ob('nested_simple_tag_skipped', new == hl + ht, 'a nested simple tag is skipped exactly')
+        ob('section_start_kept', E.as_z3_int(env.locals['sstart']) == hss, 'skipping nested tags does not move the section start')
+
+
+def _pb_exit(E, outcome, value, env, prefix):
+    ob = _ob(E, prefix, 'C01')
+    if outcome != 'normal' or E.trace_truncated:
+        return
+    marks = [i for i, t in enumerate(E.trace) if t[0] == 'loop_head']
+    if not marks:
+        return
+    tail = E.trace[marks[-1]:]
+    fin = env.final
+    res = fin['result']
+    apps = [t for t in E.trace if t[0] == 'list_append' and t[1] == res.addr]
+    ob('block.appends_exactly_one_item', bool(len(apps) == 1), 'a block contributes exactly one compiled item to the enclosing piece list')
+    sks = _sk_calls(tail)
+    hl, ht = E.as_z3_int(fin['l_']), z3.Length(E.as_z3_str(fin['tag']))
+    ob('block.resumes_after_the_end_tag_and_one_line_end', bool(len(sks) == 1) and E.valid(E.as_z3_int(sks[0]['start']) == hl + ht)
+       and bool(value is sks[0]['ret']), 'parsing resumes at skip_eol(position right after the end tag)')
+    first = _sk_calls(E.trace[:marks[0]])
+    ob('block.first_section_starts_after_one_line_end', bool(len(first) == 1) and E.valid(E.as_z3_int(first[0]['start']) == z3.Int('start')),
+       'the first section starts at skip_eol(position right after the open tag)')
+
+
+contract(PB, variant='C01',
+         params=dict(self=Obj(ST, lazy=True), text=Str(), start=Int(), result=ListS(), tagre=NoneV(), stag=Str(), sloc=Int(), sargs=Str(), scommand=NoneV()),
+         requires=['0 <= sloc', 'start == sloc + strlen(stag)', 'start <= strlen(text)', 'strlen(stag) >= 1'],
+         pre_hook=_pb_state, exit_hook=_pb_exit, raises=['ParseError'],
+         ensures=dict(range="result >= start and result <= strlen(text)"),
+         uses=[PT, PA, PC, PE, SK, ST + '.SubTemplate'],
+         invariants={1: dict(header='1', text_var='text',
+                             inv=dict(pos='0 <= sstart and sstart <= start and start <= strlen(text) and start >= s0'),
+                             ghost={'s0': 'start'}, ghost_types={'s0': 'same'},
+                             snapshot={'h_sstart': 'sstart'},
+                             decreases='strlen(text) - start', havoc_heap=['blocks'],
+                             types={'mo': 'opaque', 'l_': 'int', 'tag': 'str', 'args': 'opaque', 'command': 'opaque', 'coname': 'opaque',
+                                    'start': 'int', 'section': 'opaque', 'tname': 'opaque', 'sname': 'opaque', 'sargs': 'opaque',
+                                    'sstart': 'int', 'r': 'opaque', 'm': 'opaque'},
+                             on_iteration=_pb_iter)})
+
+
+def _pc_exit(E, outcome, value, env, prefix):
+    ob = _ob(E, prefix, 'C01')
+    if outcome != 'normal':
+        return
+    apps = [t for t in E.trace if t[0] in ('list_append',)]
+    ob('close.emits_nothing', bool(not apps), 'skipping a nested block emits nothing (its text is compiled later, as part of the enclosing section)')
+
+
+contract(PC, variant='C01',
+         params=dict(self=Obj(ST, lazy=True), text=Str(), start=Int(), tagre=NoneV(), stag=Str(), sloc=Int(), scommand=NoneV(), sa=Opaque()),
+         requires=['0 <= sloc', 'sloc <= start', 'start <= strlen(text)'],
+         pre_hook=_pb_state, exit_hook=_pc_exit, raises=['ParseError'],
+         ensures=dict(range="result >= start and result <= strlen(text)"),
+         uses=[PT, PC, PE],
+         invariants={1: dict(header='1', text_var='text', inv=dict(pos='s0 <= start and start <= strlen(text)'),
+                             ghost={'s0': 'start'}, ghost_types={'s0': 'same'}, decreases='strlen(text) - start',
+                             types={'mo': 'opaque', 'l_': 'int', 'tag': 'str', 'args': 'opaque', 'command': 'opaque', 'coname': 'opaque',
+                                    'start': 'int', 'm': 'opaque'})})
+
+
+# ------------------------------------------------------------------ parseTag: String (EPFS) and HTML versions
+def _cmd(E, name, conts):
+    """an enclosing block command: an object with a name and a tuple of continuation tag names"""
+    return E.alloc(HObj(None, {}, name='pyobj:command')), name, conts
+
+
+def _pt_state(kind, which):
+    """kind: 'end' | 'open' | 'var' ; the match object carries symbolic name / args; command: None or a block command"""
+    def hook(E, env):
+        name, args = VS(z3.String('name')), VS(z3.String('args'))
+        tag = VS(z3.String('tag'))
+        if which == 'HTML':
+            end = VC('/') if kind == 'end' else VC('')
+            groups = {0: tag, 'end': end, 'name': name, 'args': args}
+        else:
+            fmt = VC(']') if kind == 'end' else (VC('[') if kind == 'open' else VC('s'))
+            groups = {0: tag, 'name': name, 'args': args, 'fmt': fmt}
+        env.locals['match_ob'] = E.alloc(HObj(None, {'g': groups}, name='absmatch'))
+        env.locals['sargs'] = VS(z3.String('sargs'))
+    return hook
+
+
+def _absmatch_attr(E, obj, h, name):
+    if name == 'group':
+        return VBM(VBI('absmatch.group'), obj)
+    from pyvc.engine import Unsupported
+    raise Unsupported('absmatch.' + name)
+
+
+def _absmatch_group(E, args, kwargs, node):
+    g = E.heap[args[0].addr].fields['g']
+    out = [g[a.v] for a in args[1:]]
+    return out[0] if len(out) == 1 else VT(out)
+
+
+from pyvc import builtins_ as _B  # noqa
+_B.PSEUDO_OBJ_ATTR['absmatch'] = _absmatch_attr
+_B.TABLE['absmatch.group'] = _absmatch_group
+
+
+def _outcome_sig(E, outcome, value, env):
+    """normalised outcome of parseTag for the relational comparison"""
+    if outcome == 'raise':
+        return ('raise', value.cls, tuple(a.v if isinstance(a, VC) else 'sym' for a in value.args[:1]))
+    it = value.items
+    cmd = it[2]
+    if isinstance(cmd, VC) and cmd.v is None:
+        c = 'none'
+    elif isinstance(cmd, (VFn, VCls)):
+        c = cmd.qual
+    else:
+        c = 'commands[name]'
+    co = it[3]
+    co = 'none' if isinstance(co, VC) and co.v is None else ('name' if co is env.locals_name else 'other')
+    return ('ret', c, co)
+
+
+PTV = []
+for _which, _qual in (('String', ST), ('HTML', HT)):
+    for _kind in ('end', 'open', 'var'):
+        if _which == 'HTML' and _kind == 'var':
+            continue
+        for _cmdkind in ('none', 'block'):
+            _tag = 'C07.%s.%s' % (_kind, _cmdkind)
+
+            def _state(E, env, _k=_kind, _w=_which, _c=_cmdkind):
+                _pt_state(_k, _w)(E, env)
+                if _c == 'none':
+                    env.locals['command'] = NONE
+                else:
+                    cmd = E.alloc(HObj(None, {'name': VS(z3.String('cname')), 'blockContinuations': VT([VC('else')])}, name='pyobj:command'))
+                    env.locals['command'] = cmd
+
+            def _exit(E, outcome, value, env, prefix, _k=_kind, _w=_which, _c=_cmdkind):
+                ob6 = _ob(E, prefix, 'C06')
+                ob7 = _ob(E, prefix, 'C07')
+                if outcome == 'raise':
+                    ob6('parseTag.raises_only_parse_error_with_message_and_tag',
+                        bool(value.cls == 'ParseError' and not value.sym and len(value.args) == 2 and isinstance(value.args[0], VC)
+                             and value.args[0].v in ('unexpected end tag', 'Unexpected tag')),
+                        'parseTag raises only ParseError(message, tag text): unexpected end tag / Unexpected tag (%s)' % value.cls)
+                    if _k == 'end':
+                        cn = z3.String('cname')
+                        ob6('parseTag.end_tag_rejected_iff_no_or_other_open_block', bool(_c == 'none') or z3.String('name') != cn,
+                            'an end tag is rejected exactly when there is no open block or it names another tag')
+                    return
+                it = value.items
+                ob7('parseTag.tag_text_is_group0', bool(it[0] is E.heap[env.locals['match_ob'].addr].fields['g'][0]), 'the tag text is group(0)')
+                cmd = it[2]
+                isnone = isinstance(cmd, VC) and cmd.v is None
+                if _c == 'none':
+                    ob6('parseTag.no_command_means_open_tag', bool(not isnone),
+                        'outside any block a tag is never treated as an end or continuation tag: a command is returned (or ParseError raised)')
+                if _k == 'end':
+                    ob7('parseTag.end_tag_closes', bool(isnone and isinstance(it[3], VC) and it[3].v is None), 'a matching end tag yields no command and no continuation')
+                if _k == 'var':
+                    ob7('parseTag.epfs_plain_form_is_a_var_tag', bool(isinstance(cmd, (VCls,)) and cmd.name == 'Var'),
+                        '%(name args)s is a var tag')
+                    a, n = z3.String('args'), z3.String('name')
+                    strip = z3.Function('str_strip', z3.StringSort(), z3.StringSort())
+                    got = E.as_z3_str(it[1]) if E.is_strlike(it[1]) else None
+                    if got is not None:
+                        ob7('parseTag.epfs_var_arguments_are_name_then_args', z3.Or(got == n, got == z3.Concat(n, z3.StringVal(' '), strip(a))),
+                            'its arguments are "name" or "name args" (args stripped): the same parameter text as <dtml-var name args>')
+            contract(_qual + '.parseTag', variant=_tag, params=dict(self=Obj(_qual, lazy=False), match_ob=NoneV(), command=NoneV(), sargs=NoneV()),
+                     pre_hook=_state, exit_hook=_exit)
+            PTV.append(_qual + '.parseTag#' + _tag)
+
+
+def parsetag_equivalence():
+    """C07 R2 (relational): for the same (end?, name, args, enclosing command, sargs) the EPFS and the HTML parseTag produce
+    the same outcome -- same command, same continuation name, same stripped arguments, or ParseError with the same message.
+    Every pair of paths (one of each implementation) with different outcomes must be jointly infeasible."""
+    from pyvc.engine import Engine
+    from pyvc import contracts as C, smt
+    out = []
+
+    def collect(key):
+        c = REGISTRY[key]
+        paths = []
+        saved = c.exit_hook
+
+        def hook(E, outcome, value, env, prefix):
+            if outcome == 'raise':
+                sig = ('raise', value.cls, value.args[0].v if value.args and isinstance(value.args[0], VC) else '?', None, None)
+            else:
+                it = value.items
+                cmd = it[2]
+                cs = 'none' if (isinstance(cmd, VC) and cmd.v is None) else getattr(cmd, 'qual', None) or getattr(cmd, 'name', repr(cmd))
+                co = it[3]
+                cos = 'none' if (isinstance(co, VC) and co.v is None) else ('name' if (isinstance(co, VS) and co.t.eq(z3.String('name'))) else 'other')
+                sig = ('ret', cs, cos, E.as_z3_str(it[1]) if E.is_strlike(it[1]) else None, None)
+            paths.append((list(E.pc), sig))
+        c.exit_hook = hook
+        try:
+            E = Engine(REGISTRY)
+            res = C.verify(E, c)
+        finally:
+            c.exit_hook = saved
+        return paths, res
+    for kind in ('end', 'open'):
+        for ck in ('none', 'block'):
+            a, ra = collect('%s.parseTag#C07.%s.%s' % (ST, kind, ck))
+            b, rb = collect('%s.parseTag#C07.%s.%s' % (HT, kind, ck))
+            bad = None
+            undecided = bool(ra.unsupported or rb.unsupported or not a or not b)
+            for pa, sa in a:
+                for pb, sb in b:
+                    mism = []
+                    if sa[:3] != sb[:3]:
+                        mism = [z3.BoolVal(True)]
+                    elif sa[0] == 'ret' and sa[3] is not None and sb[3] is not None:
+                        mism = [sa[3] != sb[3]]
+                    elif sa[0] == 'ret' and (sa[3] is None) != (sb[3] is None):
+                        mism = [z3.BoolVal(True)]
+                    if not mism:
+                        continue
+                    v, m, be = smt.check(pa + pb + mism)
+                    if v == 'sat':
+                        bad = (sa[:3], sb[:3])
+                    elif v != 'unsat':
+                        undecided = True
+            out.append(dict(oid='C07.relational.parseTag.%s.%s' % (kind, ck), kind='relational',
+                            status='refuted' if bad else ('undecided' if undecided else 'discharged'), paths=len(a) * len(b),
+                            backends=['z3'], ms=0, model=None, havoced=False,
+                            detail='String.parseTag and HTML.parseTag agree on every input of shape (%s tag, enclosing command: %s)%s'
+                                   % (kind, ck, '' if not bad else ': outcomes %s vs %s are jointly possible' % bad)))
+    return out
+
+
+# ------------------------------------------------------------------ tag constructors on representative tags (C06 exception closure)
+def _ctor_exit(expect=None):
+    def hook(E, outcome, value, env, prefix):
+        ob = _ob(E, prefix, 'C06')
+        if outcome == 'raise':
+            ok = value.cls == 'ParseError' and not value.sym and len(value.args) == 2
+            ob('constructor_rejects_only_with_parse_error', bool(ok),
+               'a tag constructor rejects its arguments only with ParseError(message, tag name) (raised: %s)' % value.cls)
+        else:
+            ob('constructor_rejects_only_with_parse_error', True, 'accepted')
+        if expect is not None:
+            ob('constructor_verdict', bool((outcome == 'normal') == (expect == 'accept')),
+               'these arguments are %sed (grammar: unknown, duplicate, valueless, missing or contradictory name/expr attributes are rejected)' % expect)
+    return hook
+
+
+def _block_state(args):
+    def hook(E, env):
+        sec = E.alloc(HObj(None, {'blocks': E.alloc(HList([]))}, name='pyobj:section', lazy=True))
+        env.locals['blocks'] = E.alloc(HList([VT([VC('let'), VC(args), sec])]))
+    return hook
+
+
+CTORS = []
+for _i, _a in enumerate(('x=y', 'x="1+1"', 'x="1+"', 'x', 'x="a" y=b z="c"')):
+    contract('DocumentTemplate.DT_Let.Let.__init__', variant='C06.%d' % _i,
+             params=dict(self=Obj('DocumentTemplate.DT_Let.Let', lazy=False, prov='fresh'), blocks=NoneV(), encoding=NoneV()),
+             pre_hook=_block_state(_a), exit_hook=_ctor_exit())
+    CTORS.append('DocumentTemplate.DT_Let.Let.__init__#C06.%d' % _i)
+for _i, (_a, _exp) in enumerate((('x', 'accept'), ('x upper lower', 'accept'), ('x bogus', 'reject'), ('x fmt=a fmt=b', 'reject'),
+                                 ('name=x expr="y"', 'reject'), ('"1+"', None), ('x size=3 etc="."', 'accept'), ('', 'reject'),
+                                 ('expr="x" y', 'reject'), ('x size=1 size=2', 'reject'), ('x null="" null=""', 'reject'),
+                                 ('x missing=a missing=b', 'reject'), ('x upper upper', 'reject'), ('x fmt', 'accept'))):
+    contract('DocumentTemplate.DT_Var.Var.__init__', variant='C06.%d' % _i,
+             params=dict(self=Obj('DocumentTemplate.DT_Var.Var', lazy=False, prov='fresh'), args=Const(_a), fmt=Const('s'), encoding=NoneV()),
+             exit_hook=_ctor_exit(_exp))
+    CTORS.append('DocumentTemplate.DT_Var.Var.__init__#C06.%d' % _i)
+
+
+# ------------------------------------------------------------------ C06 structural obligations
+COMPILE_MODULES = ['DT_String', 'DT_HTML', 'DT_Util', 'DT_Var', 'DT_If', 'DT_In', 'DT_With', 'DT_Let', 'DT_Try', 'DT_Raise', 'DT_Return']
+
+
+def _ambiguous_repetition(pattern, flags=0):
+    """(X+ optional-stuff)* with X+ able to follow itself: exponentially many ways to split a run of X when the overall match
+    fails (catastrophic backtracking).  Sufficient syntactic test; returns a description or None."""
+    try:
+        import re._parser as sp
+        import re._constants as sc
+    except ImportError:      # pragma: no cover
+        import sre_parse as sp
+        import sre_constants as sc
+
+    def walk(items):
+        for op, av in items:
+            if op in (sc.MAX_REPEAT, sc.MIN_REPEAT):
+                lo, hi, sub = av
+                if hi == sc.MAXREPEAT:
+                    body = list(sub)
+                    while len(body) == 1 and body[0][0] == sc.SUBPATTERN:
+                        body = list(body[0][1][3])
+                    if body and body[0][0] in (sc.MAX_REPEAT, sc.MIN_REPEAT) and body[0][1][1] == sc.MAXREPEAT:
+                        rest_optional = all(o in (sc.MAX_REPEAT, sc.MIN_REPEAT) and a[0] == 0 for o, a in body[1:])
+                        if rest_optional:
+                            return 'an unbounded repetition whose body starts with another unbounded repetition and can end right after it'
+                r = walk(sub)
+                if r:
+                    return r
+            elif op == sc.SUBPATTERN:
+                r = walk(av[3])
+                if r:
+                    return r
+            elif op == sc.BRANCH:
+                for b in av[1]:
+                    r = walk(b)
+                    if r:
+                        return r
+        return None
+    return walk(sp.parse(pattern, flags))
+
+
+def c06_structural():
+    import ast
+    import os
+    import re
+    from pyvc.engine import REPO_SRC, Engine
+    out = []
+
+    def ob(oid, status, detail):
+        out.append(dict(oid='C06.structural.' + oid, kind='structural', status=status, paths=1, backends=['ast'], ms=0, model=None,
+                        detail=detail, havoced=False))
+    bad = []
+    n = 0
+    for m in COMPILE_MODULES:
+        tree = ast.parse(open(os.path.join(REPO_SRC, 'DocumentTemplate', m + '.py')).read())
+        located = set()
+        for fn_ in [x for x in ast.walk(tree) if isinstance(x, ast.FunctionDef) and x.name == 'parse_error']:
+            located |= {id(x) for x in ast.walk(fn_)}      # the final, located error carries one formatted message
+        for r in [x for x in ast.walk(tree) if isinstance(x, ast.Raise) and x.exc is not None and id(x) not in located]:
+            if isinstance(r.exc, ast.Call) and isinstance(r.exc.func, ast.Name) and r.exc.func.id == 'ParseError':
+                n += 1
+                if len(r.exc.args) != 2 or r.exc.keywords:
+                    bad.append('%s:%d' % (m, r.lineno))
+    ob('parse_errors_have_message_and_tag', 'discharged' if (not bad and n >= 20) else 'refuted',
+       'every raise ParseError(...) in the compiler modules passes (message, tag): %d sites%s' % (n, '' if not bad else '; offending: %s' % bad))
+    E = Engine(REGISTRY)
+    tag = E.lookup_qual(ST + '.tagre')
+    node = getattr(tag, 'fn', tag).node
+    consts = [x.value for x in ast.walk(node) if isinstance(x, ast.Constant) and isinstance(x.value, str) and x.value and x is not getattr(node.body[0], 'value', None)]
+    pattern = ''.join(consts)
+    try:
+        re.compile(pattern)
+        why = _ambiguous_repetition(pattern, re.I)
+    except re.error:
+        why = 'pattern not reconstructed from the source'
+    ob('epfs_tag_pattern_has_no_ambiguous_repetition', 'refuted' if why else 'discharged',
+       'the %%(...)x tag pattern of String.tagre %s' % ('contains %s: matching time is exponential in the length of an unterminated tag' % why
+                                                        if why else 'has no nested unbounded repetition'))
+    f = E.lookup_qual(RC + '.search')
+    f = getattr(f, 'fn', f)
+    names = [a.arg for a in f.node.args.args]
+    for arg in ('name_match', 'end_match', 'start_search', 'ent_name'):
+        dflt = f.defaults[names.index(arg) - (len(names) - len(f.defaults))]
+        pat = dflt.self.pattern if hasattr(dflt, 'self') else None
+        w = _ambiguous_repetition(pat) if pat else 'pattern not found'
+        ob('scanner_pattern_%s_has_no_ambiguous_repetition' % arg, 'refuted' if w else 'discharged', 'pattern %r: %s' % (pat, w or 'linear'))
+    return out
